@@ -12,6 +12,7 @@ import (
 	"encoding/json"
 	"errors"
 	"fmt"
+	"os"
 	"runtime"
 	"strings"
 	"sync"
@@ -47,6 +48,7 @@ const (
 	c20GateHeight = 1
 	c20GateAdd    = 2
 	c20GateTried  = 3
+	c20GateRead   = 4 // Height() has taken its reading and has not returned yet
 )
 
 type c20Stub struct {
@@ -89,9 +91,13 @@ func (s *c20Stub) ext() {
 func (s *c20Stub) Height() uint32 {
 	if s.serial && c20FromRun() {
 		s.mu.Lock()
-		if s.skipGate {
-			s.skipGate = false
+		if s.skipGate > 0 {
+			s.skipGate--
 			h := s.h
+			if s.failed > h && s.failed != 0 {
+				s.skipGate++ // `Height() < index` holds: the Warn statement reads the height once more
+				s.failed = 0
+			}
 			s.mu.Unlock()
 			return h
 		}
@@ -99,12 +105,15 @@ func (s *c20Stub) Height() uint32 {
 		s.arrive <- c20GateHeight
 		adv := <-s.release
 		s.mu.Lock()
-		defer s.mu.Unlock()
 		h := s.h
 		s.lastLook = h
 		for i := 0; i < adv; i++ {
 			s.ext()
 		}
+		s.mu.Unlock()
+		// the reading is taken; anything may happen before Run gets to its lock
+		s.arrive <- c20GateRead
+		<-s.release
 		return h
 	}
 	s.mu.Lock()
@@ -137,7 +146,8 @@ func (s *c20Stub) AddItem(b *c20Blk) error {
 		s.attempts = append(s.attempts, c20Att{b.idx, b.id, err == nil, s.h})
 		s.events = append(s.events, c20Ev{K: "att", Idx: b.idx, H: s.h, OK: err == nil})
 		if err != nil {
-			s.skipGate = true
+			s.skipGate = 1
+			s.failed = b.idx
 		}
 	}
 	s.mu.Unlock()
@@ -195,6 +205,7 @@ const (
 	c20AtHeight
 	c20AtAdd
 	c20AtTried
+	c20AtRead
 	c20Stopped
 )
 
@@ -273,6 +284,8 @@ func c20QueueSerial(in c20QInput) (impl c20QImpl, violation string) {
 	if drn == c20AtHeight { // Run's initial `lastHeight = chain.Height()`: let it read h0 and park
 		st.release <- 0
 		drn = wait()
+		st.release <- 0
+		drn = wait()
 	}
 	snap := func() {
 		lq, left := q.LastQueued()
@@ -282,6 +295,12 @@ func c20QueueSerial(in c20QInput) (impl c20QImpl, violation string) {
 		switch drn {
 		case c20AtHeight:
 			st.release <- adv
+			drn = wait()
+		case c20AtRead:
+			for i := 0; i < adv; i++ {
+				st.extAdvance()
+			}
+			st.release <- 0
 			drn = wait()
 		case c20AtAdd, c20AtTried:
 			st.release <- 0
@@ -317,6 +336,11 @@ func c20QueueSerial(in c20QInput) (impl c20QImpl, violation string) {
 			}
 		}
 		snap()
+		if os.Getenv("C20DEBUG") != "" {
+			st.mu.Lock()
+			fmt.Fprintf(os.Stderr, "op %+v -> drn %d lenlog %v h %d\n", op, drn, st.lenlog, st.h)
+			st.mu.Unlock()
+		}
 	}
 	// run the drainer to quiescence
 	for i := 0; drn != c20Idle && drn != c20Stopped; i++ {
@@ -459,6 +483,14 @@ func c20GenQueue(r *rng, big bool) c20QInput {
 	id := 0
 	var puts []c20QOp
 	for i := 0; i < nops; i++ {
+		if r.chance(4) {
+			// a block one capacity ahead of the tip arrives between the drainer's height reading and its lock
+			id++
+			in.Ops = append(in.Ops, c20QOp{Op: "step"}, c20QOp{Op: "step"}, c20QOp{Op: "ext"},
+				c20QOp{Op: "put", Idx: h + 1 + uint32(in.Cap) + uint32(r.intn(2)), ID: id}, c20QOp{Op: "step"}, c20QOp{Op: "step"}, c20QOp{Op: "step"})
+			h++
+			continue
+		}
 		switch x := r.intn(100); {
 		case x < 45:
 			id++
@@ -674,7 +706,7 @@ func init() { register("c20", runC20) }
 
 const c20QueueRule = "queue: schedules of Put (at/below the tip, inside the window, at and beyond its edge, same index and same object again, " +
 	"height advancing between Put's reading and its locked region), chain advances from other sources, single steps of the drainer " +
-	"(height reading + peek, AddItem, clear) and Discard over capacities 1..7 (thorough: ..14); a case is non-trivial when the drainer " +
+	"(height reading, peek, AddItem, clear) and Discard over capacities 1..7 (thorough: ..14); a case is non-trivial when the drainer " +
 	"handed at least one block to the chain; qstress: 2-4 concurrent producers re-delivering around the tip plus a concurrent direct " +
 	"adder, non-trivial when at least one block reached the chain through the queue"
 
